@@ -157,8 +157,20 @@ def digest(args):
 
 
 # ---------------------------------------------------------------- initializers
-def init(token, counter_file=None, fail_on=None, leak0=False, fail_exc="RuntimeError"):
+def _slow_exit(d):
+    _log("slow_exit_begin", d=d)
+    time.sleep(d)
+    _log("slow_exit_end")
+
+
+def init(token, counter_file=None, fail_on=None, leak0=False, fail_exc="RuntimeError", slow_exit=0):
     global INIT_TOKEN, INIT_COUNT
+    if slow_exit:
+        # the worker needs a while to leave once it got its sentinel (an atexit hook flushing state): a completed graceful
+        # shutdown still means that it is gone
+        import atexit
+
+        atexit.register(_slow_exit, slow_exit)
     n = None
     if counter_file:
         fd = os.open(counter_file, os.O_WRONLY | os.O_CREAT | os.O_APPEND, 0o644)
